@@ -14,7 +14,7 @@ import (
 )
 
 func init() {
-	register(&Check{ID: "C07", Level: "model_checking", Run: runC07, QuickBudget: 200 * time.Second, ThoroughBudget: 45 * time.Minute})
+	register(&Check{ID: "C07", Level: "model_checking", Run: runC07, QuickBudget: 400 * time.Second, ThoroughBudget: 45 * time.Minute})
 	Replayers["c07"] = replayC07
 }
 
@@ -322,6 +322,7 @@ func runC07(r *h.Run) {
 		w.Begin(func() string { return fmt.Sprintf("C07 cuts %s %d..%d", s.Name, u.lo, u.hi) })
 		for cut := u.lo; cut < u.hi; cut++ {
 			w.Evals++
+			w.Tick()
 			w.StatesN++
 			if len(s.Bytes) > 64 {
 				w.NontrivN++
@@ -379,6 +380,7 @@ func runC07(r *h.Run) {
 			prior := c07Priors[vi%3]
 			viaProto := vi%5 == 0
 			w.Evals++
+			w.Tick()
 			w.StatesN++
 			if len(ver) >= 2 {
 				w.NontrivN++
